@@ -13,7 +13,7 @@ from harness.checks.prog import run_chunked
 from harness.render import render
 
 CFG = "INIT Init\nNEXT Next\nINVARIANT Report\nCHECK_DEADLOCK FALSE\n"
-SIZES = {"quick": 150, "thorough": 3000}
+SIZES = {"quick": 150, "thorough": 1500}
 DETS = ["rekey-to", "can-close-account", "can-close-asset", "missing-fee-check", "is-updatable", "is-deletable",
         "unprotected-updatable", "unprotected-deletable"]
 
